@@ -696,6 +696,12 @@ func runC17(c *rt.Ctx) {
 				c17Instantiations(w, s)
 			}
 			// JSON documents that are almost one value: something behind it, something missing at the end
+			// several unknown keys at once (a message assembled from a map names them in another order every time)
+			for rep := 0; rep < 12; rep++ {
+				for _, doc := range []string{`{"value":1,"unit":"B","a":1,"b":2,"c":3,"d":4}`, `{"x":1,"y":2,"value":1,"unit":"B"}`, `{"p":null,"q":[],"r":{},"s":"","t":0,"value":7,"unit":"kB"}`, `{"value":1,"unit":"B","value2":2,"unit2":"x","Value":3}`} {
+					c17Instantiations(w, doc)
+				}
+			}
 			for _, doc := range []string{"1", "1024", `"1KiB"`, `"10 kB"`, `{"value":1,"unit":"KiB"}`, `{"unit":"MB","value":3}`, `{"value":"7"}`, "null", "1e3", "1.5e1"} {
 				for _, tail := range []string{" x", " 2", " 1", ",", "}", "]", "\x00", " null", `""`, " trailing", "\n\n{}", "//c"} {
 					c17Instantiations(w, doc+tail)
@@ -986,6 +992,47 @@ func c17Discovered[T any](w *rt.W, typ string, valid T, texts []string) {
 		for _, src := range srcs {
 			src := src
 			try("Scan", src, func() error { return m.Scan(src) })
+		}
+	}
+	if m, ok := any(p).(json.Unmarshaler); ok {
+		// documents shaped after the type itself: an object with the struct's own field names (exact and lower case) in
+		// which the first members are well typed and a later one is not - a decoder that fills the receiver directly
+		// has stored the good ones when it reports the bad one; arrays and numbers likewise
+		docs := []string{`[1,2,"x"]`, `[2,"x"]`, `{"value":2,"unit":7}`, `{"unit":"kB","value":"x"}`, `2e400`, `-1`, `{"a":1,"a":"x"}`}
+		if rt0 := reflect.TypeOf(valid); rt0.Kind() == reflect.Struct {
+			for _, lower := range []bool{false, true} {
+				var good, bad []string
+				for i := 0; i < rt0.NumField(); i++ {
+					f := rt0.Field(i)
+					if !f.IsExported() {
+						continue
+					}
+					name := f.Name
+					if lower {
+						name = strings.ToLower(name)
+					}
+					switch f.Type.Kind() {
+					case reflect.String:
+						good = append(good, fmt.Sprintf("%q:%q", name, "zz9"))
+						bad = append(bad, fmt.Sprintf("%q:%d", name, 5))
+					case reflect.Int, reflect.Int8, reflect.Int16, reflect.Int32, reflect.Int64, reflect.Uint, reflect.Uint8, reflect.Uint16, reflect.Uint32, reflect.Uint64:
+						good = append(good, fmt.Sprintf("%q:%d", name, 2+i))
+						bad = append(bad, fmt.Sprintf("%q:%q", name, "x"))
+					}
+				}
+				for i := range good {
+					for j := range bad {
+						if i != j {
+							docs = append(docs, "{"+good[i]+","+bad[j]+"}", "{"+strings.Join(good[:i+1], ",")+","+bad[j]+"}")
+						}
+					}
+				}
+			}
+		}
+		for _, d := range docs {
+			d := d
+			try("UnmarshalJSON", d, func() error { return m.UnmarshalJSON([]byte(d)) })
+			try("json.Unmarshal", d, func() error { return json.Unmarshal([]byte(d), p) })
 		}
 	}
 	for _, t := range texts {
